@@ -78,6 +78,13 @@ def _acked_ok(a: dict[str, Any], b: dict[str, Any],
                          f'UID {uid}) had been reported for {was!r}')
                 return
         probe = r.get('append_probe', {}).get(name)
+        if probe and probe[0] == rbox['uidvalidity'] and \
+                probe[1] <= max(rbox['messages'], default=0):
+            out.fail('uid-reused-after-restart',
+                     f'{where}: APPEND to {name!r} after the restart got UID '
+                     f'{probe[1]}, but the restarted server itself serves '
+                     f'UIDs up to {max(rbox["messages"])} there')
+            return
         if probe and (probe[0], probe[1]) in ever:
             out.fail('uid-reused-after-restart',
                      f'{where}: APPEND to {name!r} after the restart got '
